@@ -151,6 +151,23 @@ func checkC08(c *Case, st *Stats) string {
 				return fmt.Sprintf("split %d (Q = %s) on value %s: %s", k, gen.RenderSteps(Q).Text, JSONString(v), m)
 			}
 		}
+		if k == 1 && errPQ == nil && c.DocKind != "opaque" {
+			// the whole path in accessor mode: the accessors lead to the same values in the same order
+			var acfg jsonpath.Config
+			acfg = BuildConfig(nil, true, true)
+			ga, ea := jsonpath.Retrieve(gen.RenderSteps(steps).Text, doc, acfg)
+			st.Eval(1)
+			if ea != nil || len(ga) != len(rPQ) {
+				return fmt.Sprintf("accessor mode: %d accessors (%v), plain mode %d values", len(ga), ea, len(rPQ))
+			}
+			for i := range ga {
+				a, ok := ga[i].(jsonpath.Accessor)
+				if !ok || a.Get == nil || !deepSame(a.Get(), rPQ[i]) {
+					return fmt.Sprintf("accessor mode: accessor %d leads to %s, plain mode selects %s", i, JSONString(ga[i]), JSONString(rPQ[i]))
+				}
+			}
+			st.Class("accessor-mode-whole-path")
+		}
 		st.Class("split:checked")
 		pt, qt := gen.RenderSteps(P).Text, gen.RenderSteps(Q).Text
 		if errP != nil && errPQ == nil {
@@ -236,7 +253,12 @@ func corollaries(Q []gen.Step, v interface{}, rQ []interface{}, errQ error, st *
 		for _, e := range first.Ent {
 			allWild = allWild && e.Wild
 		}
-		if !isObj && !(isArr && allWild) {
+		anyWild := false
+		for _, e := range first.Ent {
+			anyWild = anyWild || e.Wild
+		}
+		// (on an array a selector of names only fails as a whole, and so does each of its names)
+		if !isObj && !(isArr && (allWild || !anyWild)) {
 			return ""
 		}
 		for _, e := range first.Ent {
